@@ -32,6 +32,62 @@ EXTRA_PROPS = {
 }
 
 
+# Rules whose clause (memory/lifetime safety, completion count, elections, atomics, deregistration, channel mapping) is a
+# necessary condition of *every* behavioural property for the code that property is anchored in: they also run under a
+# property that does not list them, restricted to constructs located in that property's anchored files
+# (properties.jsonl anchors.files + polarity.EXTRA_FILES).  Prefix match on the rule id.
+SAFETY_RULES = ('R-SIG-', 'R-MLT-', 'R-UAC-', 'R-DISCR-ORDER', 'R-INIT-DISCR', 'R-EXC-PAIR', 'R-MOVE', 'R-OWN-', 'R-SMF-FLAG', 'R-ASSIGN-ALIAS',
+                'R-ELECT-', 'R-DEREG-', 'R-CAS-STALE', 'R-MO-', 'R-AVAL-', 'R-CHAN', 'R-CB-AFTER-INIT', 'R-STOP-WRITES', 'R-CANCEL-FLAG', 'R-LIST-', 'R-LOCK-',
+                'R-NOTIFY', 'R-REQSTOP-', 'R-SIB-')
+SCOPED_NOT_FOR = {'C20'}     # C20 compares configurations; it borrows nothing
+
+
+def code_hash():
+    import hashlib
+    h = hashlib.sha256()
+    for d in ('usa', 'usa/rules', 'tables', 'witness'):
+        dd = os.path.join(core.VERIF, d)
+        for f in sorted(os.listdir(dd)):
+            p = os.path.join(dd, f)
+            if os.path.isfile(p) and not f.endswith('.pyc'):
+                h.update(f.encode())
+                with open(p, 'rb') as fh: h.update(fh.read())
+    return h.hexdigest()[:16]
+
+
+def run_rule_cached(run, r, cfg, F, cdir):
+    """run rule r for configuration cfg; the rule's raw output (instances, violations, broken) is cached by
+    (facts digest, checker code + tables hash, configuration, rule) so that the twenty checks share the work.
+    The cache key contains the content hash of /repo's sources: a changed tree is always re-analysed."""
+    cp = os.path.join(cdir, cfg.replace('*', 'X'), r['id'] + '.json') if cdir else None
+    log = None
+    if cp and os.path.exists(cp):
+        try:
+            with open(cp) as fh: log = json.load(fh)
+        except Exception:
+            log = None
+    if log is not None:
+        core.replay(run, log)
+        return
+    run.log = []
+    try:
+        try:
+            r['fn'](run, F)
+        except core.Broken as ex:
+            run.broke(str(ex))
+        except Exception as ex:
+            run.broke('rule crashed: %s: %s' % (type(ex).__name__, ex))
+            traceback.print_exc()
+        log = run.log
+    finally:
+        run.log = None
+    if cp:
+        os.makedirs(os.path.dirname(cp), exist_ok=True)
+        tmp = cp + '.%d.tmp' % os.getpid()
+        with open(tmp, 'w') as fh: json.dump(log, fh)
+        os.replace(tmp, cp)
+
+
 def load_rules():
     from . import rules
     for m in pkgutil.iter_modules(rules.__path__):
@@ -57,11 +113,17 @@ def main(argv=None):
     load_rules()
     run = core.Run(a.prop, a.tier, seed)
     rules = [r for r in core.RULES.values() if a.prop in r['props']]
+    primary = {r['id'] for r in rules}
+    from .rules.polarity import file_props
+    scope_files = {f for f, ps in file_props().items() if a.prop in ps}
+    if a.prop not in SCOPED_NOT_FOR:
+        rules += [r for r in core.RULES.values() if r['id'] not in primary and r['id'].startswith(SAFETY_RULES)]
     if a.rule: rules = [r for r in rules if r['id'] in a.rule]
     replay = None
     if a.replay:
         replay = json.load(open(a.replay))
         rules = [r for r in core.RULES.values() if r['id'] == replay['rule']]
+        primary |= {r['id'] for r in rules}
     if not rules:
         print('ANALYSIS-BROKEN property=%s no rules registered' % a.prop); return 2
     cfgs = extract.TIER_CONFIGS[a.tier]
@@ -73,6 +135,11 @@ def main(argv=None):
         run.broke(str(ex))
         return core.finish(run, t0, meta, 'extraction failed', ASSUMPTIONS)
     meta['digest'] = dg
+    cdir = os.path.join(core.VERIF, 'out', 'rcache', dg + '-' + code_hash()) if not os.environ.get('USA_NO_RCACHE') else None
+    if cdir:
+        os.makedirs(cdir, exist_ok=True)
+        os.utime(cdir)
+        extract._gc(os.path.join(core.VERIF, 'out', 'rcache'), keep=os.path.basename(cdir), maxdirs=8)
     nfun = nrec = nunits = 0
     allF = {cfg: Facts(files[cfg], cfg) for cfg in cfgs}
     run.facts = allF
@@ -87,13 +154,11 @@ def main(argv=None):
             if r['configs'] and cfg != '*' and cfg not in r['configs']: continue
             run.cur_rule, run.cur_cfg = r['id'], cfg
             before = sum(n_ for (rid_, c_), n_ in run.counts.items() if rid_ == r['id'])
-            try:
-                r['fn'](run, F)
-            except core.Broken as ex:
-                run.broke(str(ex))
-            except Exception as ex:
-                run.broke('rule crashed: %s: %s' % (type(ex).__name__, ex))
-                traceback.print_exc()
+            run.scope = None if r['id'] in primary else scope_files
+            run_rule_cached(run, r, cfg if cfg != '*' else '*' + '-'.join(cfgs), F, cdir)
+            scoped = run.scope is not None
+            run.scope = None
+            if scoped: continue          # floors belong to the rule's own properties
             n = sum(n_ for (rid_, c_), n_ in run.counts.items() if rid_ == r['id']) - before
             if n < r['floor']:
                 run.broke('instance floor not met: %d < %d (the constructs this rule reasons about were not found)' % (n, r['floor']))
